@@ -8,11 +8,11 @@ package main
 // (read-over-write), so loop-free verification conditions stay quantifier free.
 
 import (
-	"regexp"
 	"fmt"
 	"go/types"
 	"math/big"
 	"os"
+	"regexp"
 	"strings"
 )
 
@@ -61,9 +61,9 @@ var pow48 = pow2(48)
 const (
 	eStore = iota
 	eCopy
-	eZero  // object ref freshly allocated: every cell of it reads 0 / false
-	eHavoc // all cells (of refs > water, if water != nil) become unknown
-	eLit   // string literal object
+	eZero    // object ref freshly allocated: every cell of it reads 0 / false
+	eHavoc   // all cells (of refs > water, if water != nil) become unknown
+	eLit     // string literal object
 	eBytesOf // read-only storage of an abstract byte-string value: cell j reads bat(val, j)
 )
 
